@@ -1170,6 +1170,10 @@ func runScenario(sc *Scenario, raw json.RawMessage, run int) {
 			doObs(g0)
 			continue
 		}
+		if o.Op == "abuse" {
+			doAbuse()
+			continue
+		}
 		doOp(o)
 		if R.quiet || R.stop {
 			break
